@@ -103,9 +103,11 @@ def run_parse_cases(run, cases, witness_for=None, timeout=900, mem_gb=12, tv=Tru
             run.violation('unit %s: the parse path contains a function-local static (guarded initialisation, __cxa_guard_*): shared mutable state' % c.name,
                           {'query': 'static_' + c.name, 'unit': c.g.name, 'grammar': c.g.name, 'L': c.L, 'opts': [c.ws, c.nl, c.verbose], 'input_hex': '', 'asserts': c.asserts})
     if tv:
+        # translation validation needs two native builds per unit: every unit in the quick tier, every third unit (at least 12) in larger runs - the translator is the same code
+        tvc = good if len(good) <= 16 else [c for i, c in enumerate(good) if i % 3 == 0]
         with ThreadPoolExecutor(max_workers=jobs or vlib.NCPU) as ex:
-            tvs = list(ex.map(lambda c: c.translation_validation(run.seed), good))
-        for c, t in zip(good, tvs):
+            tvs = list(ex.map(lambda c: c.translation_validation(run.seed), tvc))
+        for c, t in zip(tvc, tvs):
             run.tv_runs += t['n']
             if not t['ok']: run.inconclusive.append('translation validation failed for %s: %s' % (c.name, t['why']))
     qs = []
